@@ -22,7 +22,7 @@ def main():
     rp = json.load(open(a.replay)) if a.replay else None     # read before Result() clears stale replays
     res = common.Result(prop, a.tier, seed)
     if a.replay and not os.path.exists(a.replay):
-        json.dump(rp0, open(a.replay, 'w'), indent=1, default=str)
+        json.dump(rp, open(a.replay, 'w'), indent=1, default=str)
     res.trusted = list(common.GLOBAL_TRUSTED)
     try:
         mod = importlib.import_module('props.' + prop.lower())
